@@ -4,6 +4,7 @@ package main
 
 import (
 	"fmt"
+	"go/constant"
 	"go/token"
 	"go/types"
 	"sort"
@@ -15,7 +16,7 @@ import (
 func init() {
 	register(&propDef{
 		id:      "C23",
-		explain: "Structural necessary conditions of 'the FS handler never serves a file outside its root': (R1) in the FS request handler every use of the request path to look up, build or open a file happens on paths where the NUL-byte test has passed; (R2) and, when the path came from a PathRewrite function (the rewriter field is not nil), where the '..'-segment test has passed as well - rewritten paths bypass URI normalisation; (R3) every file-system open/create/remove site of the package is reachable only from the request handler (or from the documented unguarded ServeFile family) - there is no other way in; the handler's configuration fields are assigned only during initialisation; (R4) the path normaliser behind RequestCtx.Path() applies every dot-related test ('.' presence, '/./', '/../') to the percent-decoded buffer, never to the raw encoded input, so encoded dot segments are removed like literal ones. (R5) the one byte pathToFilePath drops from the validated path is dropped only under its trailing-slash flag, and every caller computes that flag from comparing a path byte with '/' and nothing else - a last segment '..' followed by any other byte passes validation as an ordinary name. Not decided: that the normaliser equals RFC 3986 remove_dot_segments (C26), symlinks, case-insensitive file systems.",
+		explain: "Structural necessary conditions of 'the FS handler never serves a file outside its root': (R1) in the FS request handler every use of the request path to look up, build or open a file happens on paths where the NUL-byte test has passed; (R2) and, when the path came from a PathRewrite function (the rewriter field is not nil), where the '..'-segment test has passed as well - rewritten paths bypass URI normalisation; (R3) every file-system open/create/remove site of the package is reachable only from the request handler (or from the documented unguarded ServeFile family) - there is no other way in; the handler's configuration fields are assigned only during initialisation; (R4) the path normaliser behind RequestCtx.Path() applies every dot-related test ('.' presence, '/./', '/../') to the percent-decoded buffer, never to the raw encoded input, so encoded dot segments are removed like literal ones. (R5) the one byte pathToFilePath drops from the validated path is dropped only under its trailing-slash flag, and every caller computes that flag from comparing a path byte with '/' and nothing else - a last segment '..' followed by any other byte passes validation as an ordinary name. (R6) in pathToFilePath the request path is appended after the root only on paths that appended '/' last, or found the path starting with '/', or empty, or the root empty - Root+"x" names a sibling of the root. Not decided: that the normaliser equals RFC 3986 remove_dot_segments (C26), symlinks, case-insensitive file systems.",
 		run:     runC23,
 	})
 }
@@ -149,6 +150,7 @@ func trimmedByteIsSlash(p *Prog, r *Report) {
 
 func runC23(p *Prog, r *Report) {
 	trimmedByteIsSlash(p, r)
+	separatorBeforeRequestPath(p, r)
 	fn := p.Func("(*fsHandler).handleRequest")
 	dd := p.Func("hasDotDotPathSegment")
 	if fn == nil || dd == nil {
@@ -401,4 +403,195 @@ func globalBytesValueByName(p *Prog, name string) string {
 		}
 	}
 	return ""
+}
+
+// separatorBeforeRequestPath (C23.R6): pathToFilePath joins the root and the request path into the name that is opened.
+// Wherever the request path is appended after the root, the byte before it is a separator: the path is appended
+// directly only on paths that appended '/' last, or found that the path starts with '/', or that it is empty, or
+// that the root is empty. Root+"x" instead of Root+"/x" names a sibling of the root whose name merely starts with
+// the root's name (/srv/www2 for /srv/www) - outside the root, without any '..'.
+func separatorBeforeRequestPath(p *Prog, r *Report) {
+	fn := p.Func("(*fsHandler).pathToFilePath")
+	if fn == nil || len(fn.Params) < 2 {
+		r.Undecided("R6", "(*fsHandler).pathToFilePath", "not found")
+		return
+	}
+	pathParam := fn.Params[1]
+	fromPath := func(v ssa.Value) bool { return derivesFromValue(v, pathParam) }
+	// a one-byte array holding '/' that is appended
+	isSlashLit := func(v ssa.Value) bool {
+		sl, ok := v.(*ssa.Slice)
+		if !ok {
+			return false
+		}
+		al, ok := sl.X.(*ssa.Alloc)
+		if !ok {
+			return false
+		}
+		for _, ref := range *al.Referrers() {
+			if ia, ok := ref.(*ssa.IndexAddr); ok {
+				for _, r2 := range *ia.Referrers() {
+					if st, ok := r2.(*ssa.Store); ok {
+						if k, isK := constInt(st.Val); isK && k == '/' {
+							return true
+						}
+					}
+				}
+			}
+		}
+		return false
+	}
+	isLenOfPath := func(v ssa.Value) bool {
+		c, ok := v.(*ssa.Call)
+		if !ok {
+			return false
+		}
+		bi, ok := c.Call.Value.(*ssa.Builtin)
+		return ok && bi.Name() == "len" && len(c.Call.Args) == 1 && fromPath(c.Call.Args[0])
+	}
+	isFirstByteSlash := func(bo *ssa.BinOp) bool {
+		if bo.Op != token.EQL {
+			return false
+		}
+		k, isK := constInt(bo.Y)
+		if !isK || k != '/' {
+			return false
+		}
+		u, ok := bo.X.(*ssa.UnOp)
+		if !ok || u.Op != token.MUL {
+			return false
+		}
+		ia, ok := u.X.(*ssa.IndexAddr)
+		if !ok || !fromPath(ia.X) {
+			return false
+		}
+		i0, isK0 := constInt(ia.Index)
+		return isK0 && i0 == 0
+	}
+	const (
+		bRoot uint64 = 1 << iota // the root was appended and nothing after it
+		bSep                      // a '/' was the last thing appended
+		bLead                     // the path is known to start with '/'
+		bEmpty                    // the path is known to be empty
+		bNoRoot                   // the root is known to be empty
+	)
+	n, bad := 0, 0
+	var wit []string
+	var pos token.Pos
+	x := NewExplorer(p, fn, Hooks{
+		Instr: func(x *Explorer, st *State, in ssa.Instruction) {
+			c, ok := in.(*ssa.Call)
+			if !ok {
+				return
+			}
+			bi, ok := c.Call.Value.(*ssa.Builtin)
+			if !ok || bi.Name() != "append" || len(c.Call.Args) != 2 {
+				return
+			}
+			src := c.Call.Args[1]
+			switch {
+			case isSlashLit(src):
+				st.Set(bSep)
+				st.Clear(bRoot)
+			case fromPath(src):
+				// path[1:] after a separator is the same thing; what matters is the byte before
+				if st.Has(bRoot) || st.Has(bSep) {
+					n++
+					ok := st.Has(bSep) || st.Has(bLead) || st.Has(bEmpty) || st.Has(bNoRoot)
+					if sl, isSl := src.(*ssa.Slice); isSl && sl.Low != nil && !st.Has(bSep) {
+						ok = false // the leading byte was cut off and nothing replaces it
+					}
+					if !ok {
+						bad++
+						if wit == nil {
+							wit, pos = x.Path(st), in.Pos()
+						}
+					}
+				}
+				st.Clear(bRoot | bSep)
+			default:
+				if _, fv := loadedField(src); fv != nil && fv.Name() == "root" {
+					st.Set(bRoot)
+					st.Clear(bSep)
+				} else if cv, isConv := src.(*ssa.Convert); isConv {
+					_ = cv
+					st.Set(bRoot) // []byte(root...) of a local copy of the root
+					st.Clear(bSep)
+				} else {
+					st.Set(bRoot)
+					st.Clear(bSep)
+				}
+			}
+		},
+		Branch: func(x *Explorer, st *State, cond ssa.Value, taken bool, from *ssa.BasicBlock) {
+			pol, v := stripNot(cond)
+			truth := taken == pol
+			if ph, ok := v.(*ssa.Phi); ok {
+				// hasLeadingSlash := len(path) > 0 && path[0] == '/'
+				for _, e := range ph.Edges {
+					if bo, ok := e.(*ssa.BinOp); ok && isFirstByteSlash(bo) {
+						if truth {
+							st.Set(bLead)
+						} else {
+							st.Clear(bLead)
+						}
+					}
+				}
+				return
+			}
+			bo, ok := v.(*ssa.BinOp)
+			if !ok {
+				return
+			}
+			if isFirstByteSlash(bo) {
+				if truth {
+					st.Set(bLead)
+				}
+				return
+			}
+			if isLenOfPath(bo.X) {
+				if k, isK := constInt(bo.Y); isK {
+					zero := false
+					switch bo.Op {
+					case token.GTR:
+						zero = !truth && k == 0
+					case token.GEQ:
+						zero = !truth && k == 1
+					case token.LSS:
+						zero = truth && k == 1
+					case token.LEQ:
+						zero = truth && k == 0
+					case token.EQL:
+						zero = truth && k == 0
+					case token.NEQ:
+						zero = !truth && k == 0
+					}
+					if zero {
+						st.Set(bEmpty)
+					}
+				}
+				return
+			}
+			// h.root != "" / root == ""
+			if cs, ok := bo.Y.(*ssa.Const); ok && cs.Value != nil && cs.Value.Kind() == constant.String && constant.StringVal(cs.Value) == "" {
+				if _, fv := loadedField(bo.X); fv != nil && fv.Name() == "root" {
+					if (bo.Op == token.EQL) == truth {
+						st.Set(bNoRoot)
+					} else {
+						st.Clear(bNoRoot)
+					}
+				}
+			}
+		},
+	})
+	x.TrackAll = true
+	x.MaxStates = 500000
+	x.Run(nil)
+	if x.Aborted || n == 0 {
+		r.Undecided("R6", "pathToFilePath: appends of the request path after the root", "exploration gave no verdict")
+		return
+	}
+	r.Counts["R6 arrivals at an append of the request path after the root"] = n
+	r.Check("R6", "pathToFilePath: the request path is appended after the root only behind a separator (or when it starts with one, or is empty, or the root is empty)", bad == 0, p.Pos(pos),
+		fmt.Sprintf("%d of %d explored arrivals append the request path right after the root with no '/' in between and without having found the path empty, the root empty, or a leading '/': a one-byte rewritten path \"2\" under root /srv/www opens /srv/www2 - a sibling of the root, outside it", bad, n), wit...)
 }
